@@ -711,6 +711,17 @@ def case_chern_kp(ctx, case):
                 + (m_ + c1 * np.cos(twopi * k[0]) + c2 * np.cos(twopi * k[1])) * sz
                 + t0 * np.cos(twopi * (k[0] + k[1])) * np.eye(2))
     L = np.array(case["lattice"], dtype=float)
+    # SystemKP needs finite-difference shells of the reciprocal lattice (find_shells) even with analytic derivatives;
+    # for ~2 % of generic lattices find_shells itself fails (TypeError) - reported separately as a finding of the
+    # constructor, outside C27: such a system cannot be built, so the lattice is replaced by its orthogonalised cell
+    from wannierberri.system.__finite_differences import find_shells
+    try:
+        with quiet():
+            find_shells(2 * np.pi * np.linalg.inv(L).T * 1e-4)
+    except TypeError:
+        ctx.count("oracle.chern_kp.lattice_rejected_by_find_shells")
+        ctx.note(f"SystemKP cannot be constructed for lattice {L.tolist()} (find_shells raises TypeError)")
+        L = np.diag([L[0, 0], L[1, 1], L[2, 2]])
     Cref, gap = fhs_chern(lambda a, b: Hred([a, b, 0.0]), 1, n=24)
     Cint = int(round(Cref))
     n = 24
